@@ -874,6 +874,21 @@ def scan_guards(repo, consts, flags):
         r'if \(smaller\.has_commodity\(\)\) for \(const commodity_t \* comm = &larger\.commodity\(\); ; \) \{ '
         r'if \(comm->referent\(\) == smaller\.commodity\(\)\.referent\(\)\) throw_ ?\(amount_error,[^;]*\); if \(! comm->larger\(\)\) break; '
         r'comm = &comm->larger\(\)->commodity\(\); \} larger \*= smaller\.number\(\);', acn))
+    # the repairs proposed for F63, F64 (false / None while they are not in the source)
+    mcs = norm(strip_comments(open(os.path.join(src, 'main.cc'), errors='replace').read()))
+    g['debug_options_guard'] = bool(re.search(
+        r'try \{ handle_debug_options\(argc, argv\); \} catch \(const std::exception& err\) \{ std::cerr << [^;]*err\.what\(\)[^;]*; return 1; \}', mcs))
+    rc_ = norm(strip_comments(open(os.path.join(src, 'report.cc'), errors='replace').read()))
+    g['justify_width_limit'] = None
+    mj = re.search(r'value_t report_t::fn_justify\(call_scope_t& args\) \{(.*?)return string_value\(out\.str\(\)\); \}', rc_)
+    if mj:
+        b = mj.group(1)
+        ml = re.search(r'const int max_width = (\d+); const int first_width = args\.get<int>\(1\); '
+                       r'const int latter_width = args\.has<int>\(2\) \? args\.get<int>\(2\) : -1; '
+                       r'if \(first_width > max_width \|\| first_width < -max_width \|\| latter_width > max_width \|\| latter_width < -max_width\) throw_ ?\([^;]*\); '
+                       r'std::ostringstream out; args\[0\]\.print\(out, first_width, latter_width, flags\);', b)
+        if ml:
+            g['justify_width_limit'] = int(ml.group(1))
     # (d) the period parser rejects `every 0 <unit>`
     tc = strip_comments(open(os.path.join(src, 'times.cc'), errors='replace').read())
     m = re.search(r'case\s+lexer_t::token_t::TOK_EVERY\s*:(.*?)case\s+lexer_t::token_t::TOK_YEARS', tc, re.S)
@@ -901,6 +916,16 @@ def opt(v):
 
 def bl(v):
     return 'true' if v else 'false'
+
+
+def report_functions(repo):
+    """names of the value-expression functions report_t::lookup answers to (report.cc)"""
+    t = strip_comments(open(os.path.join(repo, 'src', 'report.cc'), errors='replace').read())
+    a = t.find('case symbol_t::FUNCTION:')
+    b = t.find('case symbol_t::OPTION:', a)
+    if a < 0 or b < 0:
+        return []
+    return sorted(set(re.findall(r'is_eq\(p, "([a-z_]+)"\)', t[a:b])))
 
 
 def coq_string(s):
@@ -971,6 +996,9 @@ def generate(repo):
           'Definition src_draft_cost_post_guard : bool := %s.' % bl(g['draft_cost_post_guard']),
           'Definition src_include_self_guard : bool := %s.' % bl(g['include_self_guard']),
           'Definition src_conversion_larger_chain_guard : bool := %s.' % bl(g['conversion_larger_chain_guard']),
+          '(* the repairs proposed for F63 F64: false / None while they are not in the source *)',
+          'Definition src_debug_options_guard : bool := %s.' % bl(g['debug_options_guard']),
+          'Definition src_justify_width_limit : option Z := %s.' % opt(g['justify_width_limit']),
           '(* journal.cc expand_aliases: each branch records in already_seen the name it looked up (Model/Aliases.v) *)',
           'Definition src_alias_records_what_it_looks_up : bool := %s.' % bl(g['alias_records_what_it_looks_up']),
           '(* format.cc parse_elements `%$N`: template / index / null tests exactly as modelled in Model/FormatRef.v *)',
